@@ -147,6 +147,7 @@ func (ra *ResponseAdaptor) Handle(ctx *context.Context) string {
 
 	if len(ra.spec.Body) != 0 {
 		egresp.SetPayload([]byte(ra.spec.Body))
+		egresp.HTTPHeader().Set(keyContentLength, strconv.Itoa(len(ra.spec.Body)))
 		egresp.HTTPHeader().Del("Content-Encoding")
 	}
 
